@@ -197,3 +197,27 @@ fn kf_legacy_try_is_not_a_block_opener() {
     let i5 = f.iter().position(|s| s.contains("value: 5")).unwrap();
     assert!(i99 > i5, "block-exit probe emitted at the try's end: {f:?}");
 }
+
+#[test]
+fn kf24_three_flagged_semantic_after_branches_to_one_block_are_ill_nested() {
+    let w = wat::parse_str(r#"(module (func (param i32)
+        block $B
+          local.get 0
+          br_if $B
+          local.get 0
+          br_if $B
+          local.get 0
+          br_if $B
+        end))"#).unwrap();
+    let mut m = Module::parse(&w, false).unwrap();
+    {
+        let mut it = ModuleIterator::new(&mut m, &vec![]);
+        loop {
+            if let Some(wasmparser::Operator::BrIf { .. }) = it.curr_op() { it.semantic_after().i32_const(77).drop(); }
+            if it.next().is_none() { break; }
+        }
+    }
+    let o = m.encode();
+    let v = wasmparser::Validator::new_with_features(wasmparser::WasmFeatures::all()).validate_all(&o);
+    assert!(v.is_ok(), "{:?}", v.err());
+}
